@@ -165,6 +165,11 @@ func isPointerText(b []byte) (*lfs.Pointer, bool) {
 	if len(b) >= cutSpec {
 		return nil, false
 	}
+	// necessary conditions taken from docs/spec.md, independent of the decoder under test: a pointer has
+	// the three required keys (the empty file is the pointer of the empty object)
+	if len(b) > 0 && !(bytes.Contains(b, []byte("version ")) && bytes.Contains(b, []byte("oid sha256:")) && bytes.Contains(b, []byte("size "))) {
+		return nil, false
+	}
 	p, err := lfs.DecodePointer(bytes.NewReader(b))
 	return p, err == nil && p != nil
 }
@@ -200,7 +205,10 @@ func samplePointerText(r *Rng, canonical bool) []byte {
 }
 
 func genPayload(r *Rng, known [][]byte) ([]byte, string) {
-	switch r.Intn(12) {
+	switch r.Intn(13) {
+	case 12: // degenerate text: only whitespace / NULs, below and at the window
+		return Pick(r, [][]byte{[]byte("\n"), []byte(" "), []byte("\r\n"), []byte("\t\t\n"), []byte(" \n \t\n"), bytes.Repeat([]byte(" "), 1023),
+			bytes.Repeat([]byte("\n"), 1024), bytes.Repeat([]byte("\n"), 1025), []byte("\x00"), bytes.Repeat([]byte{0}, 700), []byte("\xc2\xa0"), []byte("\xe2\x80\x83\n")}), "degenerate"
 	case 0:
 		return nil, "empty"
 	case 1:
